@@ -18,7 +18,7 @@ use crate::cm::{self, guard, panic_str, Fam, Panicked, Res};
 use crate::pk3::{self, V3};
 use crate::pk5::{self, V5};
 use crate::sio::{
-    block_on, body_bytes, parse_atoms, parse_script, parse_tail, poll_once,
+    block_on, body_bytes, parse_atoms, parse_script, parse_tail,
     poll_until_ready, SchedReader, ScriptReader, ScriptWriter, Step, Sz, Tail,
 };
 use crate::tok::{self, PResult, Toks};
@@ -86,6 +86,7 @@ fn dispatch(line: &str) -> PResult<String> {
         "cross" => op_cross(t),
         "big" => op_big(t),
         "kf1" => op_kf1(t),
+        "kf3" => op_kf3(t),
         "" => Err("empty-line".to_owned()),
         _ => Err("unknown-op".to_owned()),
     }
@@ -556,11 +557,27 @@ fn op_tn(t: &mut Toks) -> PResult<String> {
             tok::boolean(&mut out, tn.is_shared());
             out.push_str(";sys=");
             tok::boolean(&mut out, tn.is_sys());
+            // a longer and a shorter name overwritten in place (clone_from) read back as this name
+            out.push_str(";cf=");
+            let r = guard(|| {
+                let mut ok = true;
+                for o in [format!("{}/0123456789", s), "x".to_owned(), String::new()] {
+                    if let Ok(mut other) = TopicName::try_from(o) {
+                        other.clone_from(&tn);
+                        ok &= &*other == s && other == tn && other.to_string() == s;
+                    }
+                }
+                ok && &*tn.clone() == s
+            });
+            match r {
+                Ok(b) => tok::boolean(&mut out, b),
+                Err(_) => out.push_str("PANIC"),
+            }
         }
         Err(e) => {
             let exact = matches!(&e, Error::InvalidTopicName(x) if x == s);
             out.push_str(if exact { "err" } else { "bad" });
-            out.push_str(";deref=-;str=-;shared=-;sys=-");
+            out.push_str(";deref=-;str=-;shared=-;sys=-;cf=-");
         }
     }
     Ok(out)
@@ -614,11 +631,52 @@ fn op_tf(t: &mut Toks) -> PResult<String> {
                 }
                 Err(_) => out.push_str("PANIC"),
             }
+            // the same filter after a trip through a v3 SUBSCRIBE and a v5 UNSUBSCRIBE (encode, decode): the accessors
+            // of the decoded value
+            let acc = |o: &mut String, d: Option<TopicFilter>| match d {
+                None => o.push_str("lost"),
+                Some(d) => {
+                    tok::boolean(o, &*d == s && d == tf);
+                    tok::boolean(o, d.is_shared());
+                    o.push(',');
+                    opthex(o, guard(|| d.shared_group_name().map(str::to_owned)));
+                    o.push(',');
+                    opthex(o, guard(|| d.shared_filter().map(str::to_owned)));
+                }
+            };
+            out.push_str(";d3=");
+            let d3 = guard(|| {
+                let pid = Pid::try_from(1u16).unwrap();
+                let p = mqtt_proto::v3::Packet::Subscribe(mqtt_proto::v3::Subscribe::new(pid, vec![(tf.clone(), mqtt_proto::QoS::Level0)]));
+                let b = p.encode().ok()?;
+                match mqtt_proto::v3::Packet::decode(b.as_ref()) {
+                    Ok(Some(mqtt_proto::v3::Packet::Subscribe(q))) => q.topics.into_iter().next().map(|x| x.0),
+                    _ => None,
+                }
+            });
+            match d3 {
+                Ok(d) => acc(&mut out, d),
+                Err(_) => out.push_str("PANIC"),
+            }
+            out.push_str(";d5=");
+            let d5 = guard(|| {
+                let pid = Pid::try_from(1u16).unwrap();
+                let p = mqtt_proto::v5::Packet::Unsubscribe(mqtt_proto::v5::Unsubscribe::new(pid, vec![tf.clone()]));
+                let b = p.encode().ok()?;
+                match mqtt_proto::v5::Packet::decode(b.as_ref()) {
+                    Ok(Some(mqtt_proto::v5::Packet::Unsubscribe(q))) => q.topics.into_iter().next(),
+                    _ => None,
+                }
+            });
+            match d5 {
+                Ok(d) => acc(&mut out, d),
+                Err(_) => out.push_str("PANIC"),
+            }
         }
         Err(e) => {
             let exact = matches!(&e, Error::InvalidTopicFilter(x) if x == s);
             out.push_str(if exact { "err" } else { "bad" });
-            out.push_str(";deref=-;str=-;shared=-;sys=-;group=-;filter=-;info=-");
+            out.push_str(";deref=-;str=-;shared=-;sys=-;group=-;filter=-;info=-;d3=-;d5=-");
         }
     }
     Ok(out)
@@ -937,6 +995,28 @@ fn op_enc<F: Fam>(t: &mut Toks) -> PResult<String> {
         |o, v| tok::hex(o, v),
         |o, e| F::print_err(o, e),
     );
+    // the container overwritten in place (clone_from) from a longer, a shorter, and a fixed-size one
+    out.push_str(";vbcf=");
+    match guard(|| F::encode(&p)) {
+        Ok(Ok(vb)) => {
+            let n = vb.as_ref().len();
+            let mut ok = true;
+            for mut other in [
+                mqtt_proto::VarBytes::Dynamic(vec![0xAA; n + 7]),
+                mqtt_proto::VarBytes::Dynamic(vec![0x55; n / 2]),
+                mqtt_proto::VarBytes::Fixed4([9, 9, 9, 9]),
+                mqtt_proto::VarBytes::Fixed2([7, 7]),
+            ] {
+                let same = guard(|| {
+                    other.clone_from(&vb);
+                    other.as_ref() == vb.as_ref() && vb.clone().as_ref() == vb.as_ref()
+                });
+                ok &= matches!(same, Ok(true));
+            }
+            tok::boolean(&mut out, ok);
+        }
+        _ => out.push('-'),
+    }
     Ok(out)
 }
 
@@ -1073,15 +1153,30 @@ fn sched_with<F: Fam>(t: &mut Toks, init_mode: bool) -> PResult<String> {
     let mut rd = SchedReader::new(atoms, tail);
     rd.init_mode = init_mode;
     let mut st = GenericPollPacketState::<F::Hdr>::default();
+    let mut spare = GenericPollPacketState::<F::Hdr>::default();
     let mut pend = 0usize;
+    let counter = std::sync::Arc::new(crate::sio::CountingWaker(std::sync::atomic::AtomicUsize::new(0)));
+    let waker = std::task::Waker::from(counter.clone());
+    let mut lost_wake = false;
     let r = guard(|| loop {
-        match poll_once::<F, _>(&mut st, &mut rd) {
+        let before = counter.0.load(std::sync::atomic::Ordering::SeqCst);
+        match crate::sio::poll_once_with::<F, _>(&mut st, &mut rd, &waker) {
             Poll::Ready(r) => break Some(r),
             Poll::Pending => {
                 pend += 1;
-                // the clone replaces the original
-                let cloned = st.clone();
-                st = cloned;
+                if counter.0.load(std::sync::atomic::Ordering::SeqCst) == before {
+                    // Pending, and nobody holds the caller's waker: a real executor would never poll again
+                    lost_wake = true;
+                }
+                // a copy replaces the original: alternately a fresh clone and a copy made in place (clone_from) over
+                // the previous copy, which is in the same phase more often than not
+                if pend % 2 == 1 {
+                    let cloned = st.clone();
+                    spare = std::mem::replace(&mut st, cloned);
+                } else {
+                    spare.clone_from(&st);
+                    std::mem::swap(&mut st, &mut spare);
+                }
                 if pend > limit {
                     // decoder keeps returning Pending although the script has
                     // no `p` left: not representable in FORMAT.md
@@ -1137,6 +1232,7 @@ fn sched_with<F: Fam>(t: &mut Toks, init_mode: bool) -> PResult<String> {
         })
         .collect();
     csv(&mut out, &sizes);
+    out.push_str(if lost_wake { ";wake=lost" } else { ";wake=ok" });
     Ok(out)
 }
 
@@ -1623,6 +1719,33 @@ fn op_big(t: &mut Toks) -> PResult<String> {
 
 /// `kf1 N`: v5 Puback with N user properties sharing one 65535-byte Arc<String> as name and value.
 /// -> len=RES(NUM);enc=RES(NUM)
+/// `kf3 N`: v3 Subscribe with N entries sharing one 65535-byte filter (Arc): bodies up to and beyond 2^32 bytes
+/// cost no memory.  -> len=RES(NUM);enc=RES(NUM)   (encode only attempted when encode_len fails or is small)
+fn op_kf3(t: &mut Toks) -> PResult<String> {
+    let n = t.num()? as usize;
+    t.done()?;
+    if n == 0 || n > 70000 {
+        return Err("kf3-size".to_owned());
+    }
+    let f = mqtt_proto::TopicFilter::try_from("a".repeat(65535)).map_err(|_| "filter".to_owned())?;
+    let sub = mqtt_proto::v3::Subscribe::new(
+        mqtt_proto::Pid::try_from(1u16).unwrap(),
+        vec![(f, mqtt_proto::QoS::Level1); n],
+    );
+    let p = mqtt_proto::v3::Packet::Subscribe(sub);
+    let len = guard(|| p.encode_len());
+    let big = n as u64 * 65538 + 2;
+    // encode() is attempted when it must refuse (>= 2^28) or is small; never a successful multi-GB encode
+    let enc = if big >= (1u64 << 28) || big < (1 << 24) {
+        guard(|| p.encode())
+    } else {
+        guard(|| -> Result<mqtt_proto::VarBytes, mqtt_proto::Error> { panic!("skipped") })
+    };
+    let mut out = String::new();
+    big_fields(&mut out, len, enc, |v| v.as_ref().len(), |o, e| cm::print_err(o, e));
+    Ok(out)
+}
+
 fn op_kf1(t: &mut Toks) -> PResult<String> {
     let n = t.num()? as usize;
     t.done()?;
